@@ -534,5 +534,7 @@ def run(prop, tier, seed, root):
     else:
         out["counters"]["tsan_runs"] = 0
         out.setdefault("notes", []).append("ThreadSanitizer build unavailable: " + b.stderr[-300:])
+    out["cfgs"] = [f"{t}|{b}" for t in TRAITS for b in BACKENDS] + [f"{e}|{b}" for e in ELEMS for b in BACKENDS]
+    out["opsigs"] = sorted({pid.split("|")[0] for (pid, _b, _e) in probes})
     out["wall_s"] = time.time() - t0
     return out
